@@ -745,6 +745,39 @@ func c01Completeness(c *an.Ctx) {
 		c.Check(bad == "" && fields["key"] && fields["value"], "R8", "SizeCollection.size sums the stored key and value of every pair", sz.Pos(), "len(pair.key) + len(pair.value)",
 			"the combined size is computed from len("+bad+") (fields measured: "+strings.Join(sortedKeys(fields), ",")+") rather than from the key and value stored with each pair: for names whose folded form has another byte length (non-ASCII upper case, invalid UTF-8) the variable no longer equals the number of bytes received")
 	}
+	// the key reported in the match data is the key as received (the one stored with the pair), never the folded
+	// map index nor the selector: MATCHED_VAR_NAME, MATCHED_VARS_NAMES and the audit log show what the client sent
+	nKey := 0
+	for _, fn := range c.P.ModFuncs {
+		if relPkg(fn) != "internal/collections" {
+			continue
+		}
+		an.Instrs(fn, func(in ssa.Instruction) {
+			st, ok := in.(*ssa.Store)
+			if !ok {
+				return
+			}
+			fa, ok := st.Addr.(*ssa.FieldAddr)
+			if !ok || an.FieldVar(fa) == nil || an.FieldVar(fa).Name() != "Key_" || !strings.HasSuffix(fa.X.Type().String(), "corazarules.MatchData") {
+				return
+			}
+			nKey++
+			okV := false
+			switch v := st.Val.(type) {
+			case *ssa.UnOp:
+				if f2, ok := v.X.(*ssa.FieldAddr); ok && an.FieldVar(f2) != nil && an.FieldVar(f2).Name() == "key" {
+					okV = true
+				}
+			case *ssa.Field:
+				if stt, ok := v.X.Type().Underlying().(*types.Struct); ok && stt.Field(v.Field).Name() == "key" {
+					okV = true
+				}
+			}
+			c.Check(okV, "R8", fmt.Sprintf("match datum key #%d in %s is the stored (received) key", nKey, an.RelName(fn)), in.Pos(), tempName.ReplaceAllString(an.Expr(st.Val), ""),
+				"the match data built here reports "+tempName.ReplaceAllString(an.Expr(st.Val), "")+" as the key instead of the key stored with the pair: for case-folded collections this is the lower-cased index (or the selector), so MATCHED_VAR_NAME / MATCHED_VARS_NAMES no longer show the name as received and rules or chains testing it miss")
+		})
+	}
+	c.MinCount("R8", "match data keys built in the collections", nKey, 5)
 	// concat views relabel with their own variable
 	for _, name := range []string{"internal/collections.(*ConcatCollection).FindAll", "internal/collections.(*ConcatKeyed).FindAll", "internal/collections.(*ConcatKeyed).FindRegex", "internal/collections.(*ConcatKeyed).FindString"} {
 		fn := c.P.Func(name)
